@@ -180,3 +180,36 @@ fn replay_is_deterministic() {
     assert_eq!(v.outcome, f.outcome);
   }
 }
+
+// mpsc facade: a worker fed through a channel; closing the channel ends it
+#[test]
+fn mpsc_facade_is_controlled() {
+  use rxverif_rt::sync::mpsc;
+  let scn = S("mpsc", || {
+    let got = Arc::new(std::sync::Mutex::new(Vec::<i32>::new()));
+    let g2 = got.clone();
+    let body: Body = Box::new(move || {
+      let (tx, rx) = mpsc::channel::<i32>();
+      let g = got.clone();
+      let w = thread::spawn(move || { for x in rx { g.lock().unwrap().push(x); } });
+      let tx2 = tx.clone();
+      let p = thread::spawn(move || { tx2.send(1).unwrap(); tx2.send(2).unwrap(); });
+      tx.send(10).unwrap();
+      drop(tx);
+      p.join().unwrap();
+      w.join().unwrap();
+    });
+    let check: Check = Box::new(move |e: &ExecEnd| {
+      let mut v = g2.lock().unwrap().clone();
+      let ordered = v.iter().position(|x| *x == 1) < v.iter().position(|x| *x == 2);
+      v.sort();
+      let ok = v == vec![1, 2, 10] && ordered && e.all_finished();
+      Verdict { outcome: format!("{:?}", g2.lock().unwrap()), violations: if ok { vec![] } else { vec![Violation { class: "mpsc".into(), detail: format!("{:?} {:?}", v, e.kind) }] } }
+    });
+    (body, check)
+  }, ExecCfg::default());
+  let s = explore(&scn, &cfg(3));
+  assert!(s.violations.is_empty(), "{:?}", s.violations);
+  assert!(s.machinery.is_empty(), "{:?}", s.machinery);
+  assert!(s.distinct_outcomes >= 3, "{:?}", s);
+}
